@@ -1238,7 +1238,7 @@ UNITS["pixels"] = {
                      "                // C11: an indexed sprite with pixels needs a palette that contains EVERY pixel index\n"
                      "                &&& r is Ok <==> (palette is Some && pixel_format is Indexed\n"
                      "                        && forall|i: int| 0 <= i < data@.len() ==> (*palette->0).entries@.contains_key(#[trigger] data@[i] as u32))\n"
-                     "                &&& r is Ok ==> r->Ok_0 is Indexed && r->Ok_0->Indexed_data@ == data@ && r->Ok_0->Indexed_layer_is_background == layer_is_background\n"
+                     "                &&& r is Ok ==> r->Ok_0 is Indexed && r->Ok_0->Indexed_data@ == data@ && r->Ok_0->Indexed_layer_is_background == layer_is_background && r->Ok_0->Indexed_palette == palette->0\n"
                      "                        && r->Ok_0->Indexed_transparent_color_index == pixel_format->Indexed_transparent_color_index\n"
                      "            },\n"
                      "        },")},
@@ -1341,5 +1341,138 @@ UNITS["compose"] = {
                        "                },\n"
                        "                forall|cx: int, cy: int| 0 <= cx < image.w() && 0 <= cy < image.h() ==>\n"
                        "                    #[trigger] image.at(cx, cy) == frame_px(self, cels_of(self.framedata.data[frame as int]@), it.index@ as int, cx, cy),")}},
+    ],
+}
+
+
+# ------------------------------------------------------------------------------------------------
+# Validation stage (C05): what a successful load establishes for the renderer (R-pre), on the real text
+# ------------------------------------------------------------------------------------------------
+RAWPIX_OK = ("match {src} {{\n"
+             "            RawPixels::Rgba(data) => {dst} is Rgba && {dst}->Rgba_0@ == data@,\n"
+             "            RawPixels::Grayscale(data) => {dst} is Grayscale && {dst}->Grayscale_0@ == data@,\n"
+             "            RawPixels::Indexed(data) => {dst} is Indexed && {dst}->Indexed_data@ == data@\n"
+             "                && forall|i: int| 0 <= i < data@.len() ==> (*{dst}->Indexed_palette).entries@.contains_key(#[trigger] data@[i] as u32),\n"
+             "        }}")
+CTX = ("self.data@.len() == self.num_frames as int, self.num_frames <= 65535, num_frames == self.num_frames, num_layers == layers.layers@.len(), num_layers < 0x1_0000_0000,\n"
+       "                forall|f: int| 0 <= f < self.data@.len() ==> (#[trigger] self.data@[f])@.len() <= 65536,\n")
+VREF = ("                forall|id: CelId| (id.layer as int) < num_layers ==> #[trigger] validate_ref.requires((id,)),\n"
+        "                forall|id: CelId, res: Result<()>| #[trigger] validate_ref.ensures((id,), res) ==> (res is Ok <==> ((id.frame as int) < num_frames && linkable(&self, id.frame as int, id.layer as int))),\n")
+ROWS_DONE = ("                forall|f: int| 0 <= f < {n} ==> (#[trigger] result.data@[f])@.len() == self.data@[f]@.len()\n"
+             "                    && row_ok(&self, self.data@[f]@, result.data@[f]@, self.data@[f]@.len() as int, layers, tilesets),\n")
+UNITS["validate"] = {
+    "prelude_sections": ["arch", "errors", "rgba_only", "intmap", "layer_flags", "validate_shims", "validate_spec"],
+    "items": [it for it in UNITS["pixels"]["items"]] + [
+        {"kind": "struct", "file": "cel", "name": "CelId", "keep": None, "attrs": "#[derive(Clone, Copy)]\n"},
+        {"kind": "struct", "file": "cel", "name": "CelCommon", "keep": None},
+        {"kind": "struct", "file": "cel", "name": "ImageSize", "keep": None, "attrs": "#[derive(Clone, Copy)]\n"},
+        {"kind": "struct", "file": "tile", "name": "TileId", "keep": None, "attrs": "#[derive(Clone, Copy)]\n"},
+        {"kind": "struct", "file": "tile", "name": "Tile", "keep": None},
+        {"kind": "struct", "file": "tile", "name": "Tiles", "keep": None},
+        {"kind": "struct", "file": "tilemap", "name": "TilemapData", "keep": ["width", "height", "tiles"], "rewrites": [("tile::Tiles", "Tiles")]},
+        {"kind": "struct", "file": "tileset", "name": "Tileset", "keep": ["id", "tile_count", "pixels"]},
+        {"kind": "enum", "file": "layer", "name": "LayerType", "attrs": "#[derive(Clone, Copy)]\n"},
+        {"kind": "struct", "file": "layer", "name": "LayerData", "keep": ["flags", "layer_type"]},
+        {"kind": "struct", "file": "layer", "name": "LayersData", "keep": ["layers"]},
+        {"kind": "index_impl_check", "file": "layer", "type": "LayersData", "body": "{&self.layers[index as usize]}"},
+        {"kind": "struct", "file": "cel", "name": "ImageContent", "keep": None},
+        {"kind": "enum", "file": "cel", "name": "CelContent"},
+        {"kind": "struct", "file": "user_data", "name": "UserData", "keep": None, "rewrites": [("image::Rgba<u8>", "Rgba<u8>")]},
+        {"kind": "struct", "file": "cel", "name": "RawCel", "keep": ["data", "content", "user_data"]},
+        {"kind": "fn", "file": "layer", "name": "is_background", "impl_of": "LayerData", "ret": "r",
+         "ensures": "        r == ((self.flags.bits & 8u32) == 8u32),"},
+        {"kind": "fn", "file": "tileset", "name": "tile_count", "impl_of": "Tileset", "impl_filter": r"impl<P>\s+Tileset<P>", "impl_header": "<P> Tileset<P>", "ret": "r",
+         "ensures": "        r == self.tile_count,"},
+        {"kind": "fn", "file": "tilemap", "name": "max_tile_id", "impl_of": "TilemapData", "ret": "r",
+         "ensures": ("        (r is None) == (self.tiles.0@.len() == 0),\n"
+                     "        r is Some ==> (forall|i: int| 0 <= i < self.tiles.0@.len() ==> (#[trigger] self.tiles.0@[i]).id.0 <= r->0)\n"
+                     "            && (exists|i: int| 0 <= i < self.tiles.0@.len() && (#[trigger] self.tiles.0@[i]).id.0 == r->0),")},
+        {"kind": "fn", "file": "layer", "name": "validate", "key": "LayersData::validate", "impl_of": "LayersData", "ret": "r", "rules": ["R1", "R6", "R11"],
+         "body_rewrites": [("for l in &self.layers {", "for l in it: &self.layers {")],
+         "loops": {1: ("            invariant\n"
+                       "                forall|i: int| 0 <= i < it.index@ ==> (self.layers@[i].layer_type is Tilemap ==> tilesets.map().dom().contains(#[trigger] self.layers@[i].layer_type->Tilemap_0)),")},
+         "ensures": ("        // every tilemap layer references a tileset that exists\n"
+                     "        r is Ok <==> forall|i: int| 0 <= i < self.layers@.len() ==> (self.layers@[i].layer_type is Tilemap ==> tilesets.map().dom().contains(#[trigger] self.layers@[i].layer_type->Tilemap_0)),")},
+        {"kind": "fn", "file": "cel", "name": "validate", "key": "ImageContent::validate", "impl_of": "ImageContent", "impl_filter": r"impl\s+ImageContent<RawPixels>", "impl_header": "ImageContent<RawPixels>", "ret": "r",
+         "ensures": ("        r is Ok ==> r->Ok_0.size == self.size && " + RAWPIX_OK.format(src="self.pixels", dst="r->Ok_0.pixels") + ",")},
+        {"kind": "fn", "file": "cel", "name": "validate", "key": "RawCel::validate", "impl_of": "RawCel", "impl_filter": r"impl\s+RawCel<RawPixels>", "impl_header": "RawCel<RawPixels>", "ret": "r",
+         "rules": ["R1", "R6", "R11"],
+         "body_rewrites": [("layers[cel_id.layer as u32].is_background()", "layers.layers[(cel_id.layer as u32) as usize].is_background()"),
+                           ("layers[cel_id.layer as u32].layer_type", "layers.layers[(cel_id.layer as u32) as usize].layer_type"),
+                           (".map_or(0, |t| t.tile_count())", ".map_or(0, |t: &Tileset| -> (n: u32) ensures n == t.tile_count { t.tile_count() })")],
+         "requires": ("        (cel_id.layer as int) < layers.layers.len(),\n"
+                      "        forall|f: u16| #[trigger] validate_ref.requires((CelId { frame: f, layer: cel_id.layer },)),"),
+         "ensures": ("        r is Ok ==> cel_validated(self, r->Ok_0, cel_id.layer as int, layers, tilesets),\n"
+                     "        // a link is accepted only if the callback accepts (linked frame, this cel's layer)\n"
+                     "        r is Ok && self.content is Linked ==> validate_ref.ensures((CelId { frame: self.content->Linked_0, layer: cel_id.layer },), Ok(())),")},
+        {"kind": "struct", "file": "cel", "name": "CelsData", "keep": None},
+        {"kind": "fn", "file": "cel", "name": "is_raw", "impl_of": "CelContent", "impl_filter": r"impl<P>\s+CelContent<P>", "impl_header": "<P> CelContent<P>", "ret": "r",
+         "ensures": "        r == (self is Raw),"},
+        {"kind": "fn", "file": "cel", "name": "cel", "key": "CelsData::cel", "impl_of": "CelsData", "impl_filter": r"impl<P>\s+CelsData<P>", "impl_header": "<P> CelsData<P>", "ret": "r",
+         "requires": "        (cel_id.frame as int) < self.data.len(),",
+         "ensures": ("        (r is Some) == (self.at(cel_id.frame as int, cel_id.layer as int) is Some),\n"
+                     "        r is Some ==> *(r->0) == self.at(cel_id.frame as int, cel_id.layer as int)->0,")},
+        {"kind": "fn", "file": "cel", "name": "validate", "key": "CelsData::validate", "impl_of": "CelsData", "impl_filter": r"impl\s+CelsData<RawPixels>", "impl_header": "CelsData<RawPixels>", "ret": "r",
+         "rules": ["R1", "R6", "R11"],
+         "requires": ("        self.data@.len() == self.num_frames as int, self.num_frames <= 65535,\n"
+                      "        forall|f: int| 0 <= f < self.data@.len() ==> (#[trigger] self.data@[f])@.len() <= 65536,\n"
+                      "        // ASSUMPTION: fewer than 2^32 layers (the index arithmetic of the link table is usize)\n"
+                      "        layers.layers@.len() < 0x1_0000_0000,"),
+         "ensures": ("        r is Ok ==> ({\n"
+                     "            let o = r->Ok_0;\n"
+                     "            &&& o.num_frames == self.num_frames\n"
+                     "            &&& o.data@.len() == self.data@.len()\n"
+                     "            &&& forall|f: int| 0 <= f < self.data@.len() ==> (#[trigger] o.data@[f])@.len() == self.data@[f]@.len()\n"
+                     "                    && row_ok(&self, self.data@[f]@, o.data@[f]@, self.data@[f]@.len() as int, layers, tilesets)\n"
+                     "        }),"),
+         "body_rewrites": [
+             ("self.data.into_iter().enumerate()", "it3: vec_into_iter_enumerate(self.data)"),
+             ("cels_by_layer.into_iter().enumerate()", "it4: vec_into_iter_enumerate(cels_by_layer)"),
+             ("for frame in 0..num_frames {", "for frame in it1: 0..num_frames {"),
+             ("for layer in 0..num_layers {", "for layer in it2: 0..num_layers {"),
+             (".map_or(false, |c| c.content.is_raw())", ".map_or(false, |c: &RawCel<RawPixels>| -> (b: bool) ensures b == (c.content is Raw) { c.content.is_raw() })"),
+             ("let validate_ref = |id: CelId| {", "let validate_ref = |id: CelId| -> (res: Result<()>)\n            requires (id.layer as int) < num_layers\n            ensures res is Ok <==> ((id.frame as int) < num_frames && linkable(&self, id.frame as int, id.layer as int))\n        {"),
+         ],
+         "hints": [
+             ("let mut is_linkable_cel",
+              "        assert((num_frames as int) * (num_layers as int) <= 65535 * 0x1_0000_0000) by (nonlinear_arith) requires 0 <= (num_frames as int) <= 65535, 0 <= (num_layers as int) <= 0x1_0000_0000;", "before"),
+             ("is_linkable_cel.push(",
+              "                proof { lemma_row_index(frame as int, layer as int, num_layers as int, frame as int, layer as int + 1); }\n"
+              "                let ghost t0 = is_linkable_cel@;", "before"),
+             ("is_linkable_cel.push(",
+              "                proof {\n"
+              "                    assert forall|f: int, l: int| 0 <= f && 0 <= l < num_layers && l <= 65535 && (f < frame || (f == frame && l < layer + 1))\n"
+              "                        implies (#[trigger] linkable(&self, f, l)) == is_linkable_cel@[f * (num_layers as int) + l] by {\n"
+              "                        lemma_row_index(f, l, num_layers as int, frame as int, layer as int + 1);\n"
+              "                        if f < frame || l < layer { lemma_row_index(f, l, num_layers as int, frame as int, layer as int); }\n"
+              "                    }\n"
+              "                }", "after"),
+             ("let index =",
+              "            assert((id.frame as int) * (num_layers as int) <= 65535 * 0x1_0000_0000) by (nonlinear_arith) requires 0 <= (id.frame as int) <= 65535, 0 <= (num_layers as int) <= 0x1_0000_0000;\n"
+              "            proof { if (id.frame as int) < num_frames { lemma_row_index(id.frame as int, id.layer as int, num_layers as int, num_frames as int, 0); } }", "before"),
+         ],
+         "loops": {
+             1: ("            invariant\n                " + CTX +
+                 "                link_table_ok(&self, is_linkable_cel@, num_layers as int, frame as int, 0),"),
+             2: ("                invariant\n                " + CTX +
+                 "                0 <= frame < num_frames,\n"
+                 "                link_table_ok(&self, is_linkable_cel@, num_layers as int, frame as int, layer as int),"),
+             3: ("            invariant\n                " + CTX + VREF +
+                 "                it3.snapshot@.remaining().len() == self.data@.len(),\n"
+                 "                forall|i: int| 0 <= i < self.data@.len() ==> #[trigger] it3.snapshot@.remaining()[i] == (i as usize, self.data@[i]),\n"
+                 "                result.num_frames == self.num_frames,\n"
+                 "                result.data@.len() == it3.index@,\n" + ROWS_DONE.format(n="it3.index@")),
+             4: ("                invariant\n                " + CTX + VREF +
+                 "                (frame as int) < self.data@.len(),\n"
+                 "                it4.snapshot@.remaining().len() == self.data@[frame as int]@.len(),\n"
+                 "                forall|i: int| 0 <= i < self.data@[frame as int]@.len() ==> #[trigger] it4.snapshot@.remaining()[i] == (i as usize, self.data@[frame as int]@[i]),\n"
+                 "                result.num_frames == self.num_frames,\n"
+                 "                result.data@.len() == frame as int + 1,\n"
+                 "                result.data@[frame as int]@.len() == it4.index@,\n"
+                 "                row_ok(&self, self.data@[frame as int]@, result.data@[frame as int]@, it4.index@ as int, layers, tilesets),\n" + ROWS_DONE.format(n="frame as int")),
+         },
+         "loop_ends": {
+             1: "            proof { assert((frame as int) * (num_layers as int) + (num_layers as int) == (frame as int + 1) * (num_layers as int)) by (nonlinear_arith); }",
+         }},
     ],
 }
